@@ -584,7 +584,10 @@ def _monotone_case(rng, t):
     if r < 6:
         K = rng.choice([101, 201])
         sur = "ET" if r < 4 else "GP"
-        strat = DISTANCE[r] if r < 4 else DISTANCE[((t // 8) * 2 + (r - 4)) % 4]
+        # GP + Quadratic is left to ET: with quadratically growing targets the GP mean reverts to its prior beyond the data and
+        # the climb rate becomes a property of the surrogate (10-70 % of the way in 20 steps on correct code), not of the direction;
+        # that combination stays covered by the surrogate-independent clauses at every fit of the multi-fit histories
+        strat = DISTANCE[r] if r < 4 else DISTANCE[:3][((t // 8) * 2 + (r - 4)) % 3]
         if rng.random() < 0.1:
             strat = "Linear"
         init = [int(round((K - 1) * q)) for q in (0.025, 0.1, 0.175, 0.25, 0.325, 0.4, 0.475, 0.55)]
